@@ -31,7 +31,7 @@ def run(pid, tier, seed):
         lengths = list(range(0, 41))
         c = {"Hdr": 4, "Pad": 2, "Buf": 8, "Depth": 3 if q else 4, "Lengths": tla_set(lengths), "Directed": "FALSE",
              "Record": "FALSE"}
-        cfg = os.path.join(vlib.cfg_dir(), "ArenaMC-%s-scaled.cfg" % pid)
+        cfg = os.path.join(vlib.cfg_dir(), "ArenaMC-%s-scaled-%d.cfg" % (pid, os.getpid()))
         vlib.write_cfg(cfg, spec="Spec", constants=c, invariants=["AValid"])
         r = vlib.tlc("ArenaMC", cfg, workers=4, timeout=3000, heap="8g")
         if r.violated:
